@@ -14,7 +14,10 @@ TInit == tid \in DOMAIN Traces /\ l = 1 /\ bad = "" /\ Init
 Inv == C11_AckedDurable /\ C11_InOrderPrefix /\ C11_AtMostOneFragment /\ C10_OneWriteThenFlush
 TEv == /\ l <= NE /\ bad = "" /\ ~crashed
        /\ CASE Ev = "w" /\ pc = "flushed" -> Return /\ UNCHANGED <<tid, l, bad>>       \* one logging call may emit several messages
-            [] Ev = "w" /\ pc # "flushed" -> (IF pc = "idle" /\ Alive THEN (\E b \in BOOLEAN : Write(b)) /\ l' = l + 1 /\ UNCHANGED <<tid, bad>>
+            [] Ev = "w" /\ pc = "flushfailed" -> WriteReport /\ l' = l + 1 /\ UNCHANGED <<tid, bad>>
+            [] Ev = "x" -> (IF pc = "written" /\ ~ffail /\ k < N THEN FlushFail /\ l' = l + 1 /\ UNCHANGED <<tid, bad>>
+                            ELSE bad' = "HARNESS.flush_fault_out_of_place" /\ UNCHANGED <<tid, l>> /\ UNCHANGED vars)
+            [] Ev = "w" /\ pc \notin {"flushed", "flushfailed"} -> (IF pc = "idle" /\ Alive THEN (\E b \in BOOLEAN : Write(b)) /\ l' = l + 1 /\ UNCHANGED <<tid, bad>>
                             ELSE bad' = "second_write_for_one_message" /\ UNCHANGED <<tid, l>> /\ UNCHANGED vars)
             [] Ev = "f" -> (IF pc = "written" THEN Flush /\ l' = l + 1 /\ UNCHANGED <<tid, bad>>
                             ELSE IF pc = "flushed" THEN l' = l + 1 /\ UNCHANGED <<tid, bad>> /\ UNCHANGED vars      \* a second flush is harmless
